@@ -140,6 +140,8 @@ class Ctx(object):
         cell: hashable description of the parameter cell; distinctness is counted on
               (monitor, solver, branch, cell).  Default: the case itself.
         """
+        if ok is not None:
+            ok = bool(ok)
         key = "%s|%s|%s" % (monitor, solver, branch)
         st = self.stats.get(key)
         if st is None:
